@@ -1,7 +1,7 @@
 ---- MODULE Conf_Chunked ----
 (* C24 conformance: every case is one input of the real TeChunkedParser with all the delivery schedules (runs) it was fed
    with.  Case = [in, relaxed, ns, runs, ub]; ns = the distinct numbers of delivered bytes that occur in the runs;
-   run = [cap, out, steps]; step = [n, k (ns[k] = n), oc, used, outn]: after n bytes were delivered the parser had said oc,
+   run = [caps (the output capacities that gave this result, 0 = unlimited), out, steps]; step = [n, k (ns[k] = n), oc, used, outn]: after n bytes were delivered the parser had said oc,
    consumed `used` input bytes and produced the first outn bytes of run.out. *)
 EXTENDS Chunked, ConfLib
 Case == Cases[i]
